@@ -344,6 +344,9 @@ def _single_violation(rule, k):
         oown["resolver"] = ["root, ctx", "**kw"][k]
     elif rule == "resExtraRequired":
         oown["resolver"] = "root, ctx, info, p=None, zz%s=None, *, kw%s" % (sfx, sfx)
+    elif rule == "resCollides":
+        oown["args"] = [A(["info", "ctx"][k], N("Int"))]
+        oown["resolver"] = "root, ctx, info, **kw"
     elif rule == "notInterface":
         fresh({"kind": "object", "name": "Im" + sfx, "desc": None, "interfaces": [O],
                "fields": [F(fn, t1, [A(x, t1)]), F(own, N("Int"), [A("p", N("Int"))])]})
